@@ -41,13 +41,13 @@ def _run(tape):
     pos = tape.draw(64)
     kind = tape.draw(8)
     sc = E.Scenario(tape, force_dedicated=True)
-    worker_faults = ['worker_hang', 'worker_exit', 'worker_abort', 'worker_late_answer']
+    worker_faults = ['worker_hang', 'worker_exit', 'worker_abort', 'worker_late_answer', 'worker_late_death']
     if placed:
         sc.behaviours = ['equal'] * sc.n
         p = pos % sc.n
-        sc.behaviours[p] = worker_faults[kind % 4]
+        sc.behaviours[p] = worker_faults[kind % 5]
         if placed == 2:
-            sc.behaviours[(p + 1) % sc.n] = worker_faults[(kind // 4 + kind) % 4]
+            sc.behaviours[(p + 1) % sc.n] = worker_faults[(kind // 5 + kind) % 5]
             run.probe('consecutive_faults')
         sc.idle_kill = False
     run.say(sc.describe())
@@ -106,10 +106,10 @@ def run_index(i, seed, tier, emit):
     emit(safe_run_tape(mod, t), t)
     # systematic placement on this seed's configuration: every position x every worker fault, then pairs
     for pos in range(13):
-        for kind in range(4):
+        for kind in range(5):
             t = Tape(seed, prefix=[1, pos, kind])
             emit(safe_run_tape(mod, t), t)
     for pos in range(0, 13, 3):
-        for kind in range(8):
+        for kind in range(10):
             t = Tape(seed, prefix=[2, pos, kind])
             emit(safe_run_tape(mod, t), t)
